@@ -935,6 +935,141 @@ def abi_phases(V):
 
 
 # ================================================================================================ rules
+# ============================================================================ R9.6 the embedded component type
+_ASCII = {
+    "is_ascii_alphanumeric": lambda b: chr(b).isascii() and chr(b).isalnum() and b < 128,
+    "is_ascii_alphabetic": lambda b: b < 128 and chr(b).isalpha(),
+    "is_ascii_digit": lambda b: 48 <= b <= 57,
+    "is_ascii_hexdigit": lambda b: chr(b) in "0123456789abcdefABCDEF",
+    "is_ascii_punctuation": lambda b: 33 <= b <= 47 or 58 <= b <= 64 or 91 <= b <= 96 or 123 <= b <= 126,
+    "is_ascii_graphic": lambda b: 33 <= b <= 126,
+    "is_ascii_whitespace": lambda b: b in (9, 10, 12, 13, 32),
+    "is_ascii_control": lambda b: b < 32 or b == 127,
+    "is_ascii_uppercase": lambda b: 65 <= b <= 90,
+    "is_ascii_lowercase": lambda b: 97 <= b <= 122,
+    "is_ascii": lambda b: b < 128,
+}
+_RUST_ESC = {"\\\\": 92, '\\"': 34, "\\0": 0, "\\n": 10, "\\r": 13, "\\t": 9, "\\'": 39}
+
+
+class _Unknown(Exception):
+    pass
+
+
+def _byte_of(src):
+    src = src.strip()
+    m = re.fullmatch(r"b'(\\?.)'", src)
+    if m:
+        c = m.group(1)
+        if len(c) == 1:
+            return ord(c)
+        return {"\\n": 10, "\\r": 13, "\\t": 9, "\\0": 0, "\\\\": 92, "\\'": 39, '\\"': 34}.get(c, None)
+    m = re.fullmatch(r"(0x[0-9a-fA-F_]+|\d+)(u8)?", src)
+    if m:
+        return int(m.group(1).replace("_", ""), 0)
+    raise _Unknown(f"byte literal `{src}`")
+
+
+def _pat_matches(p, b):
+    k = p.get("k")
+    if k == "p_wild":
+        return True
+    if k == "p_ident":
+        return True
+    if k == "p_lit":
+        lit = p["lit"]
+        if lit.get("k") == "int":
+            return int(lit["v"]) == b
+        raise _Unknown(f"literal pattern {lit.get('k')}")
+    if k == "p_range":
+        m = re.fullmatch(r"(.*?)\s*(\.\.=|\.\.)\s*(.*)", p["src"])
+        if not m:
+            raise _Unknown(p["src"])
+        lo = _byte_of(m.group(1)) if m.group(1) else 0
+        hi = _byte_of(m.group(3)) if m.group(3) else 255
+        return lo <= b <= hi if m.group(2) == "..=" else lo <= b < hi
+    if k == "p_or":
+        return any(_pat_matches(x, b) for x in synq.pat_alts(p))
+    if k in ("p_ref", "p_paren"):
+        return _pat_matches(p.get("pat") or p.get("e"), b)
+    raise _Unknown(f"pattern kind {k}")
+
+
+def _guard(g, b):
+    k = g.get("k")
+    if k == "binary" and g["op"] in ("||", "&&"):
+        l, r = _guard(g["l"], b), _guard(g["r"], b)
+        return (l or r) if g["op"] == "||" else (l and r)
+    if k == "unary" and g["op"] == "!":
+        return not _guard(g["e"], b)
+    if k == "mcall" and not g["args"] and g["method"] in _ASCII and g["recv"].get("k") in ("path", "unary", "ref"):
+        return _ASCII[g["method"]](b)
+    if k == "binary" and g["op"] in ("==", "!=", "<", "<=", ">", ">="):
+        sides = []
+        for e in (g["l"], g["r"]):
+            t = render(e).lstrip("*&")
+            try:
+                sides.append(_byte_of(t))
+            except _Unknown:
+                sides.append(None)
+        if sides.count(None) == 1:
+            v = sides[0] if sides[0] is not None else sides[1]
+            a, c = (b, v) if sides[0] is None else (v, b)
+            return {"==": a == c, "!=": a != c, "<": a < c, "<=": a <= c, ">": a > c, ">=": a >= c}[g["op"]]
+    raise _Unknown(f"guard `{render(g)}`")
+
+
+def r96(rep):
+    """The encoded world is embedded as `*b"...\\<newline>..."`: a byte-string literal wrapped with backslash-newline
+    continuations (which skip the following line's leading whitespace).  The per-byte escaper is evaluated as a function
+    over all 256 byte values."""
+    f = synq.find_fn(LIB, "emit_custom_section")
+    rep.saw(f"{LIB}::emit_custom_section")
+    ms = [m for m in synq.matches_in(f.body) if any("\\x{:02x}" in x["v"] for a in m["arms"] for x in synq.strings(a["body"]))]
+    rep.floor("R9.6", "byte escaper of the embedded component type", len(ms), 1)
+    if len(ms) != 1:
+        rep.ob("R9.6", "one per-byte escaper writes the embedded component type", False, f"{len(ms)} candidates", f.loc())
+        return
+    m = ms[0]
+    wraps = [x for x in synq.strings(f.body) if x["v"] == "\\\n"]
+    rep.ob("R9.6", "the literal is wrapped with backslash-newline continuations", bool(wraps), "", f.loc(m), nontrivial=False)
+    literal, wrong, unhandled = [], [], []
+    try:
+        for b in range(256):
+            arm = None
+            for a in m["arms"]:
+                if _pat_matches(a["pat"], b) and (a.get("guard") is None or _guard(a["guard"], b)):
+                    arm = a
+                    break
+            if arm is None:
+                unhandled.append(b)
+                continue
+            strs = [x["v"] for x in synq.strings(arm["body"])]
+            pushes_self = any(mc["method"] == "push" and "byte" in render(mc["args"]) or
+                              mc["method"] == "push" and re.search(r"char::from\(\*?\w+\)|as char", render(mc["args"]))
+                              for mc in synq.method_calls(arm["body"]))
+            if pushes_self:
+                literal.append(b)
+            elif any("\\x{:02x}" in v or "\\x{:02X}" in v for v in strs):
+                pass
+            elif len(strs) == 1 and strs[0] in _RUST_ESC:
+                if _RUST_ESC[strs[0]] != b:
+                    wrong.append((b, strs[0]))
+            else:
+                raise _Unknown(f"arm body `{render(arm['body'])[:80]}`")
+    except _Unknown as e:
+        rep.ob("R9.6", "the byte escaper is understood (patterns, guards, arm bodies)", False, str(e), f.loc(m))
+        return
+    rep.ob("R9.6", "the byte escaper handles all 256 byte values", not unhandled, f"{unhandled[:8]}", f.loc(m))
+    bad = [b for b in literal if not (33 <= b <= 126) or b in (34, 92)]
+    rep.ob("R9.6", "every byte written as itself into the wrapped byte-string literal is a non-blank printable ASCII "
+           "character other than `\\` and `\"`", not bad,
+           ("bytes " + ", ".join(f"0x{b:02x}" for b in bad[:8]) + " are written raw: a blank that lands first on a wrapped line is "
+            "skipped by the `\\`-newline continuation, so the literal is shorter than the declared [u8; N] (E0308 on wasm32) "
+            "and the embedded world is corrupted") if bad else f"{len(literal)} byte values are written raw", f.loc(m))
+    rep.ob("R9.6", "every fixed escape sequence denotes the byte it stands for", not wrong, f"{wrong[:6]}", f.loc(m))
+
+
 def run(rep, tier):
     rep.describe(
         "other",
@@ -949,7 +1084,9 @@ def run(rep, tier):
         "generator-chosen operand roots (arg{i}, ptr, value, _lower{i} ...) must not coincide with any template "
         "temporary. R9.3: both halves of an export use the same post-return guard, names, signatures and async "
         "prefixes and every export_name carries the export prefix. R9.4: templates do not name a prelude item "
-        "unqualified that a user type can shadow. NOT decided: that rustc accepts the output, that wit-component "
+        "unqualified that a user type can shadow. R9.6: the per-byte escaper of the embedded component type "
+        "(a byte-string literal wrapped with backslash-newline) is evaluated over all 256 byte values: only non-blank "
+        "printable ASCII other than `\\` and `\"` is written raw, fixed escapes denote their byte. NOT decided: that rustc accepts the output, that wit-component "
         "accepts the module, value-level behaviour, the type-namespace families Guest{Resource} / {Resource}Borrow / "
         "{Type}Param / {Type}Result.",
         trusted_base=["syn parse of the generator sources", "Rust reference keyword list transcribed in rules/C09.py",
@@ -975,6 +1112,7 @@ def run(rep, tier):
     rep.guard("R9.3", "export halves", lambda: r93(rep))
     rep.guard("R9.4", "prelude names", lambda: r94(rep, state))
     rep.guard("R9.5", "per-iteration items", lambda: r95(rep))
+    rep.guard("R9.6", "embedded component type", lambda: r96(rep))
 
 
 # ------------------------------------------------------------------------------------------------ R9.1
